@@ -16,6 +16,7 @@ pub mod c09;
 pub mod c10;
 pub mod c11;
 pub mod c12;
+pub mod c13;
 pub mod c14;
 pub mod c15;
 pub mod c16;
@@ -47,6 +48,7 @@ pub fn run(id: &str, tier: Tier, seed: u64, known: &Known) -> PropRun {
         "C10" => c10::run(tier, seed, known),
         "C11" => c11::run(tier, seed, known),
         "C12" => c12::run(tier, seed, known),
+        "C13" => c13::run(tier, seed, known),
         "C14" => c14::run(tier, seed, known),
         "C15" => c15::run(tier, seed, known),
         "C16" => c16::run(tier, seed, known),
@@ -74,6 +76,7 @@ pub fn replay(id: &str, part: &str, bytes: &[u8], case: &Value) -> Verdict {
         "C10" => c10::replay(part, bytes, case, &mut st),
         "C11" => c11::replay(part, bytes, case, &mut st),
         "C12" => c12::replay(part, bytes, case, &mut st),
+        "C13" => c13::replay(part, bytes, case, &mut st),
         "C14" => c14::replay(part, bytes, case, &mut st),
         "C15" => c15::replay(part, bytes, case, &mut st),
         "C16" => c16::replay(part, bytes, case, &mut st),
